@@ -18,9 +18,10 @@
     (`context.offset_in_composite`, `context.level_offset`) on top of those
     sizes;
   * `<ref>`: `template<> class X_traits<ref_tag> : public X_traits<target_tag>`
-    overriding `name`, `offset`, `since_version` and (only when the ref has the
-    attribute) `deprecated` - everything else, including `deprecated` of the
-    target, is inherited.
+    overriding `name`, `offset`, `since_version` and `deprecated`: with the
+    ref's own value when the ref has the attribute, otherwise declared
+    `= delete`, which hides the inherited member (no `deprecated` trait).
+    Everything else is inherited from the target's traits.
 -/
 import Sbepp.Schema.Resolve
 import Sbepp.Rt.Defaults
@@ -150,8 +151,8 @@ def encAttrKVs (self : Path) : Elem → List KV
       [("element_tags", tagList (elems.map (fun e => self ++ [e.name]))), ("traits_tag", tagText self)]
   | .ref _ _ _ _ => []
 
-/-- attribute traits of an encoding: a ref takes the target's and overrides
-    `name`, `since_version` and - only if the ref has it - `deprecated` -/
+/-- attribute traits of an encoding: a ref takes the target's and overrides `name`,
+    `since_version` and `deprecated` (its own value, or deleted when it has none) -/
 def elemAttrKVs (types : List Elem) (self : Path) : Elem → List KV
   | .ref n ty _ a =>
     match lookup types ty with
@@ -159,7 +160,7 @@ def elemAttrKVs (types : List Elem) (self : Path) : Elem → List KV
       let base := setKV "since_version" (num a.since) (setKV "name" (txt n) (encAttrKVs ["types", target.name] target))
       match a.deprecated with
       | some d => setKV "deprecated" (num d) base
-      | none => base
+      | none => eraseKV "deprecated" base
     | none => []
   | e => encAttrKVs self e
 
